@@ -126,6 +126,18 @@ func run(tb ev.TB, c xCase) (labels []string, nontrivial bool) {
 		yrecs = append(yrecs, refcodec.Record{Offset: int64(i), Timestamp: int64(1 + i), Value: []byte(fmt.Sprintf("yeed-%d", i))})
 	}
 	cl.AppendBatches("y", 0, refcodec.MakeBatchV2(yrecs, 1))
+	// a partition with an open transaction: a read_committed fetch at its last stable offset is answered with an empty record
+	// set although the high watermark lies beyond ("readLSO" calls, on a Conn of their own)
+	cl.CreateTopic("s", 1)
+	cl.MoveLeader("s", 0, 1)
+	var srecs []refcodec.Record
+	for i := 0; i < 5; i++ {
+		srecs = append(srecs, refcodec.Record{Offset: int64(i), Timestamp: int64(1 + i), Value: []byte(fmt.Sprintf("txn-%d", i))})
+	}
+	cl.AppendBatches("s", 0, refcodec.MakeBatchV2(srecs[:2], 1), refcodec.MakeBatchV2(srecs[2:], 1))
+	cl.Lock()
+	cl.PartitionUnlocked("s", 0).OpenTxnFrom = 2
+	cl.Unlock()
 	// a topic whose records are read one by one by "fetchRecords" calls while other calls use the transport: empty and
 	// null keys and values next to ordinary ones
 	cl.CreateTopic("e", 1)
@@ -263,6 +275,15 @@ func run(tb ev.TB, c xCase) (labels []string, nontrivial bool) {
 		}
 		defer connY.Close()
 		connY.SetDeadline(time.Now().Add(30 * time.Second))
+		ctx4, cancel4 := context.WithTimeout(context.Background(), 3*time.Second)
+		connS, err := d.DialLeader(ctx4, "tcp", "b1.fake:9092", "s", 0)
+		cancel4()
+		if err != nil {
+			tb.Fatalf("harness: dial: %v", err)
+		}
+		defer connS.Close()
+		connS.SetDeadline(time.Now().Add(30 * time.Second))
+		var sMu sync.Mutex
 		if c.DeadlineMs > 0 {
 			conn.SetDeadline(time.Now().Add(time.Duration(c.DeadlineMs) * time.Millisecond))
 		} else {
@@ -334,6 +355,38 @@ func run(tb ev.TB, c xCase) (labels []string, nontrivial bool) {
 							// the Conn has one position shared by all callers: whatever offset the batch started at, the
 							// message must be the record the log holds at that offset (compared below)
 							o.got, o.want = fmt.Sprintf("%d:%s", m.Offset, m.Value), "record-at-offset"
+						}
+					case "readLSO":
+						// a read_committed consumer standing at the last stable offset: nothing to read, then (one call in two) the
+						// two stable records before it; all on a fourth Conn while the others are in use
+						sMu.Lock()
+						pos := int64(2)
+						if k.Tag%2 == 0 {
+							pos = 0
+						}
+						if _, err := connS.Seek(pos, kafka.SeekAbsolute|kafka.SeekDontCheck); err != nil {
+							o.err = err
+							sMu.Unlock()
+							break
+						}
+						b := connS.ReadBatchWith(kafka.ReadBatchConfig{MinBytes: 1, MaxBytes: 1 << 20, MaxWait: time.Millisecond, IsolationLevel: kafka.ReadCommitted})
+						var got []string
+						for {
+							m, err := b.ReadMessage()
+							if err != nil {
+								break
+							}
+							got = append(got, fmt.Sprintf("%d:%s", m.Offset, m.Value))
+						}
+						cerr := b.Close()
+						sMu.Unlock()
+						if cerr != nil {
+							o.err = cerr
+							break
+						}
+						o.got, o.want = strings.Join(got, " "), ""
+						if pos == 0 {
+							o.want = "0:txn-0 1:txn-1"
 						}
 					case "readZ":
 						// another Conn (its own connection, its own partition) in use at the same time
@@ -727,7 +780,7 @@ func run(tb ev.TB, c xCase) (labels []string, nontrivial bool) {
 
 func genCase(t *rapid.T, mode string) xCase {
 	c := xCase{Mode: mode, Brokers: 1, Sched: map[string]int{}}
-	kinds := []string{"offset", "partitions", "write", "create", "coordinator", "committed", "readEarly", "readEarly", "readZ", "readZ"}
+	kinds := []string{"offset", "partitions", "write", "create", "coordinator", "committed", "readEarly", "readEarly", "readZ", "readZ", "readLSO"}
 	if mode == "transport" {
 		c.Brokers = rapid.IntRange(1, 3).Draw(t, "brokers")
 		c.IdleMs = rapid.SampledFrom([]int{1, 5, 50, 1000}).Draw(t, "idleMs")
@@ -843,7 +896,7 @@ func TestConnHammer(t *testing.T) {
 		n := rapid.SampledFrom([]int{150, 400, 800}).Draw(t, "calls")
 		kinds := []string{"offset", "partitions", "partitions", "coordinator", "committed"}
 		if rapid.Bool().Draw(t, "withBatches") {
-			kinds = append(kinds, "readEarly", "readEarly", "readZ", "readZ", "readZ")
+			kinds = append(kinds, "readEarly", "readEarly", "readZ", "readZ", "readZ", "readLSO")
 		}
 		tag := 1000
 		for g := 0; g < ng; g++ {
